@@ -408,6 +408,7 @@ func run(e *core.Env) {
 		return points[a].off < points[b].off
 	})
 	sawOld, sawNew := 0, 0
+	followUps := 0
 	for _, pt := range points {
 		simos.Use(image0.Clone())
 		simos.Current().ArmCrash(pt.op, pt.off)
@@ -442,6 +443,60 @@ func run(e *core.Env) {
 		}
 		got := snap(re)
 		d0, d1 := loaded0.diff(got), mem1.diff(got)
+		// Life goes on after a crash: for a sample of crash points the restarted
+		// storage is changed (often shrunk), shut down cleanly and started again.
+		if (d0 == "" || d1 == "") && followUps < 24 && tp.Chance(1, max(1, len(points)/24)) {
+			followUps++
+			var fp []netip.Addr
+			for ip := range got.routers {
+				fp = append(fp, ip)
+			}
+			sort.Slice(fp, func(a, b int) bool { return fp[a].Compare(fp[b]) < 0 })
+			var fd []string
+			for d := range got.mappings {
+				fd = append(fd, d)
+			}
+			sort.Strings(fd)
+			switch tp.Intn(3) {
+			case 0: // shrink a lot
+				for i, ip := range fp {
+					if i%4 != 0 {
+						_ = re.DeleteRouter(ip)
+					}
+				}
+				for i, d := range fd {
+					if i%4 != 0 {
+						_ = re.DeleteMapping(d)
+					}
+				}
+			case 1: // empty
+				for _, ip := range fp {
+					_ = re.DeleteRouter(ip)
+				}
+				for _, d := range fd {
+					_ = re.DeleteMapping(d)
+				}
+			default:
+				for _, mu := range genMutations(tp, 1+tp.Intn(4), &fp, &fd, e) {
+					mu(re)
+				}
+			}
+			want := snap(re)
+			if crashed, err := stop(re); crashed || err != nil {
+				e.Fail("save-fails", "clean Stop() after an earlier crash failed: %v", err)
+			}
+			re2, err := storage.NewJSONFileStorage(statePath)
+			if err != nil {
+				e.Fail("start-refused-after-crash-then-clean-shutdown",
+					"killed at journal op %d (%s) offset %d/%d, restarted, changed the state (%d routers), shut down cleanly: the next start fails: %v; files %v",
+					pt.op, kind, pt.off, journal[pt.op].Len, len(want.routers), err, simos.Current().Files())
+			}
+			if d := want.diff(snap(re2)); d != "" {
+				e.Fail("roundtrip-lossy-after-earlier-crash", "state saved after an earlier crash reloads differently: %s", d)
+			}
+			e.Probe("crash_then_clean_shutdown_then_restart")
+			e.Case(0x18, uint64(pt.op), uint64(pt.off), 0xfffd, uint64(len(want.routers)))
+		}
 		switch {
 		case d0 == "":
 			sawOld++
